@@ -1,19 +1,24 @@
 import PyYetiVerif.Lemmas.Op4
 import PyYetiVerif.Lemmas.Op4File
+import PyYetiVerif.Lemmas.Op4Bytes
+import PyYetiVerif.Lemmas.Op4AsciiPuts
+import PyYetiVerif.Lemmas.Op4AsciiHalf
 /-!
 # C04 — OUTPUT4 write followed by read is the identity
 
-Property theorems only (helper lemmas live in `Lemmas/Op4.lean`).  The model
-`PyYetiVerif.Op4` (Model/Op4.lean) is tied to pyyeti/nastran/op4.py by the constants translator
-(`Generated/Op4Consts.lean`) and by exact correspondence of written bytes / text, decoded values
-and listings (harness/props/c04.py).
+Property theorems only (helper lemmas live in `Lemmas/Op4*.lean`).  The models — `PyYetiVerif.Op4`
+(Model/Op4.lean: both writers, the binary reader, `%E`) and `PyYetiVerif.Op4A` (Model/Op4Ascii.lean:
+the ASCII reader) — are tied to pyyeti/nastran/op4.py by the constants translator
+(`Generated/Op4Consts.lean`) and by exact correspondence of written bytes / text, decoded values,
+listings, single fields and blocks (harness/props/c04.py).
 
 Reading of the property.  A column of a matrix is a `List Entry`; an element is a pair of IEEE bit
-patterns.  "Identical values" is `canonCol`: what was written comes back bit for bit, except that an
-element equal to zero (`±0.0`, both parts for complex) that lies outside every written string
-comes back as `+0.0`, and a real matrix has no imaginary part.  The theorems are at the level of
-the 32-bit word stream of one column record (either byte order); `bytes_roundtrip` and
-`double_words_roundtrip` carry this down to bytes.
+patterns.  "Identical values" for binary is `decCol`/`canonCol`: what was written comes back bit for
+bit, except that an element equal to zero (`±0.0`, both parts for complex) that lies outside every
+written string comes back as `+0.0`, and a real matrix has no imaginary part.  The column theorems are
+at the level of the 32-bit word stream of one column record (either byte order), `file_roundtrip_binary`
+at the level of the word stream of a file, `file_roundtrip_bytes` at the level of bytes with names and
+format detection.  For ASCII see the second half of the file.
 
 The two places where the unchanged code does **not** satisfy the property are explicit:
 * `pack_fits_i32`: the packed nonbigmat string header fits `struct.pack('i', …)` iff
@@ -22,7 +27,7 @@ The two places where the unchanged code does **not** satisfy the property are ex
   value with a three-digit exponent; `ascii_overflow_example` is `-2.5e-120` (finding F3).
 -/
 namespace PyYetiVerif.C04
-open PyYetiVerif.Op4 PyYetiVerif.Generated.Op4Consts
+open PyYetiVerif.Op4 PyYetiVerif.Op4A PyYetiVerif.Generated.Op4Consts
 
 /-- `_sparse_col_stats`: the runs concatenate to the input (so they partition it in order), every
 run is non-empty, and the lengths add up to the number of indices. -/
@@ -194,5 +199,238 @@ example :
     strings false col = [(1, [(1, 0), (2, 0)]), (5, [(3, 0)])] ∧
       canonCol false col = [(0, 0), (1, 0), (2, 0), (0, 0), (0, 0), (3, 0)] := by
   decide
+
+/-- **Whole files, at the level of bytes.**  `file_roundtrip_binary`, `bytes_roundtrip`,
+`name_roundtrip` and the format detection composed into one statement about `op4.write` followed by
+`op4.load(into='list', sparse=False)`: if the binary writer produces the byte string `bytes` for a
+non-empty list of matrices (either byte order, every matrix with its resolved layout), then the
+reader — `_decode_format` on the first bytes, 32-bit words from the bytes, `_loadop4_binary` until
+the end of the file, `_check_name`, the puts applied to zero matrices — returns exactly
+`canonFile ms`: per matrix, in file order, the lower-cased name, the shape, form and type, and the
+columns `decCol` (`decCol_spec`: bit-identical values; `-0.0` outside the written strings reads as
+`+0.0`).  Hypotheses (`Mat.WfB`): `Mat.Wf` with `rows < 2^27`, a valid name of at most 8 characters,
+elements that are 64-bit patterns; nonbigmat only below 65536 rows.  (An empty list of matrices
+writes an empty file, which `op4.load` refuses: `decodeBytes [] = none`.) -/
+theorem file_roundtrip_bytes (e : Endian) (ms : List (Layout × Mat)) (bytes : List Nat) (hne : ms ≠ [])
+    (hw : ∀ p ∈ ms, p.2.WfB ∧ (p.1 = .nonbigmat → p.2.rows < rows4bigmat))
+    (henc : encFileBytes e ms = some bytes) :
+    decodeBytes bytes = some (canonFile ms) := by
+  unfold encFileBytes at henc
+  cases hws : encFileWords e ms with
+  | none => rw [hws] at henc; cases henc
+  | some ws =>
+    rw [hws] at henc
+    simp only [Option.map_some, Option.some.injEq] at henc
+    subst henc
+    have hlt := encFileWords_lt32 e ms ws (fun p hp => (hw p hp).1) hws
+    obtain ⟨ds, hds, hdecs⟩ := file_roundtrip_binary e ms ws (fun p hp => ⟨(hw p hp).1.wf, (hw p hp).2⟩) hws
+    -- the first word is the record length of the header record
+    obtain ⟨ws', hws'⟩ : ∃ ws', ws = 24 :: ws' := by
+      cases ms with
+      | nil => exact absurd rfl hne
+      | cons p t =>
+        obtain ⟨lay, m⟩ := p
+        simp only [encFileWords] at hws
+        cases ha : encMatWords e lay m with
+        | none => simp [ha] at hws
+        | some a =>
+          cases hb : encFileWords e t with
+          | none => simp [ha, hb] at hws
+          | some b =>
+            simp only [ha, hb, Option.bind_eq_bind, Option.bind_some, Option.some.injEq] at hws
+            rw [← hws, encMatWords_eq e lay m a ha]
+            simp only [headerWords, hdrReclen, List.cons_append, List.append_assoc]
+            exact ⟨_, rfl⟩
+    unfold decodeBytes
+    rw [hws', decodeFormat_enc e ws', ← hws']
+    simp only [wordsOfBytes_bytesOfWords e ws hlt, hds]
+    exact toRMats_decs ms ds 0 hdecs fun p hp => ⟨(hw p hp).1.name_ident, (hw p hp).1.name_len⟩
+
+/-- an empty file is refused (`RuntimeError: … is empty or nearly empty`): the round trip needs at
+least one matrix -/
+theorem empty_file_refused : decodeBytes [] = none ∧ encFileBytes .little [] = some [] := by
+  decide
+
+/-! ## The ASCII half
+
+The reader model is `PyYetiVerif.Op4A` (Model/Op4Ascii.lean): the file is cut into its lines
+(`linesOf`), integers are read by `pyInt?`, a value field by `pyFloat?`, whose result `Dec10` is the
+*exact decimal the field denotes* `(-1)^neg · man · 10^exp`.  "Identical values to the requested
+number of digits" is therefore two statements: the decimal read back **is** the decimal printed
+(`file_roundtrip_ascii`, `ascii_entry_spec`: `decOf d x = (sign, the d+1 digit mantissa, e10 - d)`),
+and the decimal printed is within half a unit of its last digit of the double (`ascii_value_half_unit`,
+with `sci_mantissa_digits`: the mantissa really has `d + 1` digits, so `e10` is the decimal exponent).
+The hypothesis that every written value fits its field, `Fits d b := ¬(neg ∧ |e10| ≥ 100)`, is the
+boundary of finding F3 (`fmtE_width`, `ascii_overflow_example`). -/
+
+/-- the writer's value lines are exactly `chunkLines`: the fields, `perline` to a line, every line
+terminated (so whatever follows starts a new line) -/
+theorem value_lines (d : Nat) (hp : 1 ≤ perline d) (ds : List Nat) (tail : List Char) :
+    linesOf (valueLines d ds.length ds ++ tail)
+      = chunkLines (perline d) ds.length (ds.map (fmtE d)) ++ linesOf tail :=
+  valLines_isLines d hp ds tail
+
+/-- **ascii_slicing.**  For every field width `numlen ≥ 1`, every `perline ≥ 1` and every list of
+fields of that width (any count: the last line may be partial, and the list may be empty), written
+`perline` to a line: `_get_ascii_block` consumes exactly those lines and the reader's slices
+`s[0:n], s[n:2n], …` of the block are exactly the written fields (with `D → E` applied when the
+file is in D format). -/
+theorem ascii_slicing (g : Cfg) (hw : 1 ≤ g.numlen) (hp : 1 ≤ g.perline) (fs : List (List Char)) (rest : List (List Char))
+    (hwidth : ∀ f ∈ fs, f.length = g.numlen) (hD : g.dformat = true → ∀ f ∈ fs, ∀ c ∈ f, c ≠ 'D') :
+    fields g.numlen fs.length (getBlock g fs.length (chunkLines g.perline fs.length fs ++ rest)).1 = fs ∧
+      (getBlock g fs.length (chunkLines g.perline fs.length fs ++ rest)).2 = rest := by
+  have hf := fields_chunkLines g.numlen g.perline hw hp fs.length fs (Nat.le_refl _) hwidth
+  cases hdf : g.dformat with
+  | false =>
+    have hb := getBlock_chunkLines g hp fs.length fs rest (Nat.le_refl _)
+    have hg : g = { g with dformat := false } := by cases g; simp_all
+    rw [← hg] at hb
+    rw [hb]; exact ⟨hf, rfl⟩
+  | true =>
+    have hb := getBlock_chunkLines' g hp fs.length fs rest (Nat.le_refl _) (hD hdf)
+    rw [hb]; exact ⟨hf, rfl⟩
+
+/-- the width hypothesis of `ascii_slicing` is what `fmtE_width` characterises: a printed value has
+the announced width iff it is not negative with a three-digit exponent -/
+theorem fits_iff_width (d b : Nat) (hd : 1 ≤ d) : Fits d b ↔ (fmtE d b).length = numlen d := by
+  have h := (fmtE_width d b hd).1
+  unfold Fits
+  rw [show numlen d = d + 7 from by unfold numlen numlenBase expdigits; omega]
+  exact h.symm
+
+/-- **ascii_column_roundtrip_dense**: the values of a dense column record (any segment, real or
+complex) come back as the printed decimals, in order, and exactly the value lines are consumed -/
+theorem ascii_column_roundtrip_dense (g : Cfg) (d : Nat) (cplx : Bool) (hg : GoodCfg g d cplx) (hd : 1 ≤ d)
+    (hp : 1 ≤ perline d) (seg : List Entry) (hfit : ∀ b ∈ segDs cplx seg, Fits d b) (rest : List (List Char)) :
+    ∃ blk, getBlock g (segDs cplx seg).length (valLines d (segDs cplx seg) ++ rest) = (blk, rest) ∧
+      readVals g blk (segDs cplx seg).length = some (seg.map (aEntry d cplx)) :=
+  readVals_valLines g d cplx hg hd hp seg hfit rest
+
+/-- **ascii_column_roundtrip_bigmat**: for *every* list of strings `(first row, elements)` — any
+partition, adjacent strings, zeros inside a string — the bigmat string loop returns, string by
+string, the 0-based row and the printed decimals, and stops exactly after the last value line -/
+theorem ascii_column_roundtrip_bigmat (g : Cfg) (d : Nat) (cplx : Bool) (hg : GoodCfg g d cplx) (hd : 1 ≤ d)
+    (hp : 1 ≤ perline d) (ss : List (Nat × List Entry)) (rest : List (List Char)) (fuel : Nat) (hf : ss.length ≤ fuel)
+    (hfit : ∀ s ∈ ss, ∀ b ∈ segDs cplx s.2, Fits d b)
+    (hw : ∀ s ∈ ss, s.2.length * 2 * mult cplx + 1 < 10 ^ 8 ∧ s.1 + 1 < 10 ^ 8) :
+    rdStrBig g fuel (nwordsBig cplx ss) (ss.flatMap (bigStrLines d cplx) ++ rest)
+      = some (ss.map (fun s => (s.1, s.2.map (aEntry d cplx))), rest) :=
+  rdStrBig_enc g d cplx hg hd hp rest ss fuel hf hfit hw
+
+/-- **ascii_column_roundtrip_nonbigmat**: the same for the packed `IS` header, rows below 65536 -/
+theorem ascii_column_roundtrip_nonbigmat (g : Cfg) (d : Nat) (cplx : Bool) (hg : GoodCfg g d cplx) (hd : 1 ≤ d)
+    (hp : 1 ≤ perline d) (ss : List (Nat × List Entry)) (rest : List (List Char)) (fuel : Nat) (hf : ss.length ≤ fuel)
+    (hfit : ∀ s ∈ ss, ∀ b ∈ segDs cplx s.2, Fits d b) (hw : ∀ s ∈ ss, s.1 + 1 < 65536) :
+    rdStrNonbig g fuel (nwordsNonbig cplx ss) (ss.flatMap (nonbigStrLines d cplx) ++ rest)
+      = some (ss.map (fun s => (s.1, s.2.map (aEntry d cplx))), rest) :=
+  rdStrNonbig_enc g d cplx hg hd hp rest ss fuel hf hfit hw
+
+/-- the lines `bigStrLines` / `nonbigStrLines` are what the writer prints for a string -/
+theorem string_lines (d : Nat) (hp : 1 ≤ perline d) (cplx : Bool) (s : Nat × List Entry) (tail : List Char) :
+    linesOf (fmtInt 8 ((s.2.length : Int) * 2 * (mult cplx : Int) + 1) ++ fmtInt 8 ((s.1 : Int) + 1) ++ ['\n'] ++
+        valueLines d (segDs cplx s.2).length (segDs cplx s.2) ++ tail) = bigStrLines d cplx s ++ linesOf tail ∧
+    linesOf (fmtInt 11 ((packIS (s.1 + 1) (s.2.length * 2 * mult cplx) : Nat) : Int) ++ ['\n'] ++
+        valueLines d (segDs cplx s.2).length (segDs cplx s.2) ++ tail) = nonbigStrLines d cplx s ++ linesOf tail :=
+  ⟨bigStr_isLines d hp cplx s tail, nonbigStr_isLines d hp cplx s tail⟩
+
+/-- the title line written by `_write_ascii_header` is read back by `_loadop4_ascii`: columns, rows
+(negative for bigmat), form, type, the name field, and `perline` / `numlen` from `1P,{n}E{w}.{d}`
+(also with the 16-character fields and the `|I16` suffix above 9 999 999 rows) -/
+theorem header_roundtrip_ascii (d : Nat) (m : Mat) (big : Bool) (hwf : WfA m) (hp : 1 ≤ perline d) :
+    rdHeader (asciiHeader d m big) = some (some (hdrOf d m big)) :=
+  rdHeader_asciiHeader d m big hwf hp
+
+/-- **file_roundtrip_ascii.**  For every non-empty list of matrices (each with the layout `write`
+resolved for it) written with `d` digits, `1 ≤ d ≤ 73`: `op4.load` on the text (`loadAscii`: format
+detection, `_dformat`, the loop of `listload`) returns exactly one `ADec` per matrix, in file order,
+carrying the written name field, rows (negated for bigmat), columns, form, type, the announced
+`perline`/`numlen`, and puts that rebuild (`applyPutsA`, the dense read) a matrix related entry by
+entry (`ReadOf`, see `ascii_entry_spec`) to the columns `decCol` of `file_roundtrip_binary`.
+Hypotheses (`MatOK`): columns of `rows` entries, `6·rows < 10^8` and `ncols + 1 < 10^8`, `form < 10^8`
+(the 8-character integer fields), a valid name of at most 8 characters, nonbigmat only below 65536
+rows, and **every written value fits its field** (`Fits`: not negative with a three-digit exponent —
+the necessary condition of finding F3, see `ascii_overflow_example`). -/
+theorem file_roundtrip_ascii (d : Nat) (hd : 1 ≤ d) (hd' : d ≤ 73) (ms : List (Layout × Mat)) (hne : ms ≠ [])
+    (hok : ∀ p ∈ ms, MatOK d p) :
+    ∃ ds, loadAscii (encFileAscii d ms) = some ds ∧ List.Forall₂ (ADecOf d) ms ds := by
+  have hp : 1 ≤ perline d := by
+    unfold perline numlen numlenBase expdigits lineWidth
+    exact (Nat.le_div_iff_mul_le (by omega)).2 (by omega)
+  exact loadAscii_enc d hd hp ms hne hok
+
+/-- the printed zero: sign aside, a double that is `±0.0` prints (and reads back) with mantissa 0 -/
+theorem decOf_zero (d b : Nat) (h : isZeroD b = true) : (decOf d b).man = 0 := by
+  unfold isZeroD at h
+  have hb : b % 9223372036854775808 = 0 := by simpa using h
+  have h1 : b / 4503599627370496 % 2048 = 0 := by omega
+  have h2 : b % 4503599627370496 = 0 := by omega
+  simp [decOf, sciDec, sci, sciOf, h1, h2]
+
+/-- what `ReadOf` means entry by entry: if the written column holds `x` at row `i`, the column the
+ASCII reader rebuilds holds `y` there, where for a non-zero `x` (bit patterns) `y` is exactly the
+printed decimal(s) of `x` — `aEntry d cplx x = (decOf d re, decOf d im)` — and for a zero `x` both
+parts of `y` have mantissa 0 (the value is 0) -/
+theorem ascii_entry_spec (d : Nat) (lay : Layout) (cplx : Bool) (col : List Entry) (colA : List AEntry)
+    (h : List.Forall₂ (ReadOf d cplx) (decCol lay cplx col) colA) (i : Nat) (x : Entry) (hx : col[i]? = some x) :
+    ∃ y : AEntry, colA[i]? = some y ∧
+      (x.isZero cplx = false → y = aEntry d cplx x) ∧
+      (x.isZero cplx = true → y.1.man = 0 ∧ y.2.man = 0) := by
+  obtain ⟨yb, hyb, hnz, hz⟩ := decCol_entry lay cplx col i x hx
+  obtain ⟨y, hy, hrel⟩ := forall₂_getElem? h i yb hyb
+  refine ⟨y, hy, ?_, ?_⟩
+  · intro hxz
+    have hyb' := hnz hxz
+    rcases hrel with hr | ⟨hr, _⟩
+    · rw [hr, hyb', aEntry_normE]
+    · exfalso
+      have : (normE cplx x).isZero cplx = true := by rw [← hyb', hr]; exact isZero_zero cplx
+      rw [isZero_normE] at this
+      rw [hxz] at this; cases this
+  · intro hxz
+    have hzz := hz hxz
+    rcases hrel with hr | ⟨_, hr⟩
+    · rw [hr]
+      unfold aEntry
+      cases cplx
+      · simp only [Entry.isZero, Bool.false_eq_true, if_false] at hzz
+        exact ⟨decOf_zero d _ hzz, rfl⟩
+      · simp only [Entry.isZero, if_true, Bool.and_eq_true] at hzz
+        exact ⟨decOf_zero d _ hzz.1, decOf_zero d _ hzz.2⟩
+    · rw [hr]; exact ⟨rfl, rfl⟩
+
+/-- the mantissa printed for a double has exactly `d + 1` digits (or is 0): the bisection of the
+`%E` model finds the decimal exponent, so `e10` below is the exponent of the leading digit -/
+theorem sci_mantissa_digits (d b : Nat) :
+    (sci d b).mant < 10 ^ (d + 1) ∧ ((sci d b).mant = 0 ∨ 10 ^ d ≤ (sci d b).mant) := sci_mant d b
+
+/-- **to the requested number of digits.**  The decimal read back for a double `b` printed with `d`
+digits after the point, `decOf d b = (sign, mantissa, e10 - d)`, differs from the exact value of the
+double, `bitsVal b = (-1)^s · m · 2^e2`, by at most half a unit of the last printed digit:
+`|read − x| ≤ ½ · 10^(e10 − d)` (rational arithmetic, no rounding anywhere) -/
+theorem ascii_value_half_unit (d b : Nat) :
+    |Dec10.toRat (decOf d b) - bitsVal b| ≤ 1 / 2 * (10 : ℚ) ^ ((sci d b).e10 - (d : Int)) := decOf_err d b
+
+/-- what a value field reads as: `float(fmtE d b)` is the printed decimal, whatever the width -/
+theorem field_roundtrip (d b : Nat) (hd : 1 ≤ d) : pyFloat? (fmtE d b) = some (decOf d b) := pyFloat_fmtE d b hd
+
+/-- non-vacuity of the ASCII theorems: a matrix the hypotheses admit (two strings in one column, a
+3-digit positive exponent), a value that does not fit (F3), and a title line -/
+example :
+    let m : Mat := { name := [75, 97], form := 2, cplx := false, rows := 4,
+                     cols := [[(0x3FF8000000000000, 0), (0, 0), (0x58EEFB1178484135, 0), (0, 0)]] }
+    isIdent m.name = true ∧ strings false m.cols.head! = [(0, [(0x3FF8000000000000, 0)]), (2, [(0x58EEFB1178484135, 0)])] ∧
+      (sci 3 0x58EEFB1178484135).e10 = 120 ∧ (sci 3 0x58EEFB1178484135).neg = false ∧
+      (sci 3 0xA719D28F47B4D525).neg = true ∧ (sci 3 0xA719D28F47B4D525).e10 = -120 ∧
+      decOf 3 0x3FF8000000000000 = { neg := false, man := 1500, exp := -3 } := by
+  decide +kernel
+
+example : rdHeader "       2      -3       2       2A       1P,3E23.16\n".toList
+    = some (some { cols := 2, rows := -3, form := 2, mtype := 2, name := "A       ".toList, perline := 3, numlen := 23 }) := by
+  decide +kernel
+
+example : fields 3 3 "abcdefgh".toList = ["abc".toList, "def".toList, "gh".toList] ∧
+    pyFloat? " -2.50E-120".toList = some { neg := true, man := 250, exp := -122 } ∧
+    pyInt? "   -12 \n".toList = some (-12) := by
+  decide +kernel
 
 end PyYetiVerif.C04
